@@ -138,6 +138,31 @@ def check_swap(ctx: Ctx, rid_pair: str, rid_region: str, pm: ParserModel) -> Non
                     ok = False
                     why.append("the raw Value of the argument is not created before the placeholder is appended")
             ctx.ob(rid_region, f"parser:CxxParser.{fname}|placeholder token stays inside the bounded stream", ok, msg="; ".join(why), node=x, mod=mod)
+        # ---- which arguments get a trial at all: every one that starts like a type.  Any further condition on the way to
+        # the swap means some type-ids are never tried and are reported as raw values.
+        for t in tries:
+            tn = next((m for m in cfg.nodes if m.stmt is not None and any(x is m.stmt for x in t.body)), None)
+            if tn is None:
+                continue
+            conj = []
+            for d, lab in cfg.control_deps(tn):
+                if d.loop is not None or d.cond is None or lab != "T":
+                    if d.cond is not None and d.loop is None and lab == "F":
+                        conj.append("not (" + norm(d.cond) + ")")
+                    continue
+                parts = d.cond.values if isinstance(d.cond, ast.BoolOp) and isinstance(d.cond.op, ast.And) else [d.cond]
+                for p_ in parts:
+                    conj.append(_expand_single_defs(cfg, rd, d, p_))
+            allowed = lambda c_: (c_ in ("raw_toks", "bool(raw_toks)", "len(raw_toks) > 0", "len(raw_toks) >= 1", "raw_toks != []") or
+                                  (c_.startswith("raw_toks[0].type in ") and "_pqname_start_tokens" in c_))
+            flat = []
+            for c_ in conj:
+                flat += [x.strip() for x in c_.split(" and ")] if not c_.startswith("not (") else [c_]
+            extra = [c_ for c_ in flat if not allowed(c_)]
+            starts = any("_pqname_start_tokens" in c_ for c_ in flat)
+            ctx.ob(rid_region, f"parser:CxxParser.{fname}|every argument that starts like a type gets a trial parse", starts and not extra,
+                   msg=(f"the trial parse also depends on {extra}: a template argument that starts like a type but fails that test is never parsed as a type and is reported as a raw value (e.g. 'std::array<std::array<int, 3>, 4>')"
+                        if extra else "the trial parse is not tied to the argument starting like a type name"), node=t, mod=mod)
         # ---- whole-argument condition: the success path passes `_next_token_must_be(PhonyEnding.type)` and has_tokens()
         for t in tries:
             inner = [x for b in t.body for x in ast.walk(b) if isinstance(x, ast.Try) and x.handlers]
@@ -172,3 +197,22 @@ def phony_confined(ctx: Ctx, rid: str, pm: ParserModel) -> None:
     swapfns = sorted({f for f, _ in lex_stores(pm) if f != "__init__"})
     ctx.ob(rid, "parser:CxxParser|PhonyEnding used only in the swap function", bool(uses) and set(fns) <= set(swapfns),
            msg=f"the location-less placeholder token is referenced in {fns}; the error handler dereferences tok.location", node=uses[0][1] if uses else pm.cls, mod=mod, nontrivial=False)
+
+
+def _expand_single_defs(cfg, rd, at, e: ast.AST, depth: int = 0) -> str:
+    """text of e with locals that have one reaching definition written out (named booleans)"""
+    import copy as _copy
+
+    class T(ast.NodeTransformer):
+        def visit_Name(self, n: ast.Name):
+            if not isinstance(n.ctx, ast.Load) or depth > 3 or n.id in ("raw_toks", "self"):
+                return n
+            ds = list(rd.get(at.id, {}).get(n.id, ()))
+            if len(ds) != 1:
+                return n
+            dn = cfg.nodes[ds[0]]
+            st = dn.stmt
+            if dn.kind == "stmt" and isinstance(st, ast.Assign) and len(st.targets) == 1 and isinstance(st.targets[0], ast.Name):
+                return ast.parse(_expand_single_defs(cfg, rd, dn, _copy.deepcopy(st.value), depth + 1), mode="eval").body
+            return n
+    return norm(T().visit(_copy.deepcopy(e)))
